@@ -153,6 +153,12 @@ def _set_file(root: str, u, p: str, v: int, mt: int) -> None:
     if text is None:
         if os.path.exists(dst):
             os.remove(dst)
+            # a state is exactly its set of files: no empty directory stays behind (mypy would take it for a
+            # namespace package, which the cold oracle's fresh tree does not have)
+            d = os.path.dirname(dst)
+            while os.path.abspath(d) != os.path.abspath(root) and os.path.isdir(d) and not os.listdir(d):
+                os.rmdir(d)
+                d = os.path.dirname(d)
         return
     os.makedirs(os.path.dirname(dst) or root, exist_ok=True)
     with open(dst, "w") as f:
@@ -545,8 +551,14 @@ def run_subtree(item: tuple) -> dict:
                 vm_init = initial_vm(u, init)  # what the cache was written for
                 edited = {_strip(p) for p in vm_init if final.get(p) != vm_init[p]}  # net change only
                 miss_lines = sorted((cc - cg).elements())
-                if all(ln.split(":", 1)[0] not in edited for ln in miss_lines if not ln.split(": ", 1)[-1].startswith("note: See https://")):
+                real = [ln for ln in miss_lines if not ln.split(": ", 1)[-1].startswith("note: See https://")]
+                rest = [ln for ln in real if ln.split(":", 1)[0] in edited]
+                if not rest:
                     sig = f"{uname}|cache-start|errors-of-cached-unedited-modules-not-reported"
+                elif len(rest) < len(real):
+                    # two causes at once: name the finding after what the cache-start limitation does NOT explain
+                    sig = history_signature(u, uname, init, hist, f"{uname}|" + "|".join(texts(rest, "-")[:3]),
+                                            got["status"], exp_status)
             out["violations"].append({
                 "signature": sig,
                 "what": f"{uname} {mode}{' recheck' if use_recheck else ''} history {fmt_hist(init, hist)}: "
